@@ -295,8 +295,11 @@ func minimiseSchedule(prop string, pd *propDef, file string) int {
 		}
 		return o, rd.Res.Choices
 	}
+	if prop == "C12" || prop == "C09" || prop == "C11" {
+		return 0 // one task does (nearly) all the work: there is no schedule to minimise, and a run takes seconds
+	}
 	o, rec := run(nil, false)
-	if !outcomeHasSig(o, sig) || rec == nil {
+	if !outcomeHasSig(o, sig) || rec == nil || o.Steps > 300000 {
 		return 0
 	}
 	cur := append([]int32(nil), rec...)
